@@ -153,7 +153,13 @@ def run(tier):
 
     # ------------------------------------------------------------------ D2 printers: one empty line between paragraphs
     check_printers(F, C)
-    C.assumptions += ["print/reparse fixpoint and field-wise equality are not evaluated; they follow from C16 (codec agreement per field), C08 (printer forms), C03/C06 (readers) and the clauses decided here",
+    # ------------------------------------------------------------------ D5 paragraph-level print/re-read of every lossy document struct
+    # (the per-struct analysis of C16, restricted to the structs the lossy documents are made of)
+    import c16
+    doc_structs = set(SIBLINGS) | {k for k in F.adts if k.startswith(("debian_control::lossy::", "debian_copyright::lossy::", "dep3::lossy::", "apt_sources::"))}
+    nf = c16.check_structs(F, C, only=lambda k: k in doc_structs, rule_prefix="C20/derived", floors=False)
+    C.floor("C20/derived/fields", nf, 100, "fields of lossy document structs taken through to_paragraph / from_paragraph / update_paragraph")
+    C.assumptions += ["the document-level print/reparse fixpoint is composed from: the paragraph-level round trip of every lossy document struct (decided here with C16's engine, incl. present-but-empty optional values), C08 (printer forms), C03/C06 (readers) and the classification clauses decided here",
                       "classification is validated on sequences of <= 3 paragraphs"]
     return C.finish("Sibling name tables are extracted by interpreting the lossy derive expansions and every lossless accessor; the classification loops of lossy Control/Copyright are interpreted on all short paragraph sequences "
                     "against the document model and its rejections; routing and paragraph separators are checked on the printers/readers of every lossy document type.")
